@@ -47,7 +47,7 @@ func (p *c19) ID() string    { return "C19" }
 func (p *c19) Level() string { return "exploration" }
 func (p *c19) NewPlan() any  { return &C19Plan{} }
 func (p *c19) Rule() string {
-	return "N in 2..16 (quick) / 2..64 (thorough) devices with mixed key types, key exchanges and ciphers run DI, voucher extension, TO0, TO1 and TO2 (with a per-device ping module whose payload is derived from the device identity) concurrently as tasks of the seeded scheduler against ONE node hosting all responders over one store (simstore or sqlite); interleaving at every network event, state-backend method, module callback and verif hook of the device pipeline, plus PRNG-chosen virtual delays; in a quarter of the runs the context of device 1's TO2 is cancelled after a seeded number of scheduler steps or exactly at the n-th yield site of a chosen class of the device pipeline; binary built with the Go race detector; oracle: every device succeeds as it does alone (solo baseline of device 0 in a fresh world), its stored replacement voucher agrees with its credential (independent recomputation), module payloads received on either side are its own, no response delivered to a device contains another device's GUID, no deadlock (kernel verdict or all goroutines of the bubble blocked for good), a cancelled call returns, zero race reports whose two accesses are both in go-fdo; non-trivial = at least two tasks were runnable at some step; distinct = distinct (schedule, N, backend, outcome)"
+	return "N in 2..16 (quick) / 2..64 (thorough) devices with mixed key types, key exchanges and ciphers run DI, voucher extension, TO0, TO1 and TO2 (with a per-device ping module whose payload is derived from the device identity) concurrently as tasks of the seeded scheduler against ONE node hosting all responders over one store (simstore or sqlite); interleaving at every network event, state-backend method, SQL statement of the sqlite backend (through its statement-log seam), module callback and verif hook of the device pipeline, plus PRNG-chosen virtual delays; in a quarter of the runs the context of device 1's TO2 is cancelled after a seeded number of scheduler steps or exactly at the n-th yield site of a chosen class of the device pipeline; binary built with the Go race detector; oracle: every device succeeds as it does alone (solo baseline of device 0 in a fresh world), its stored replacement voucher agrees with its credential (independent recomputation), module payloads received on either side are its own, no response delivered to a device contains another device's GUID, no deadlock (kernel verdict or all goroutines of the bubble blocked for good), a cancelled call returns, zero race reports whose two accesses are both in go-fdo; non-trivial = at least two tasks were runnable at some step; distinct = distinct (schedule, N, backend, outcome)"
 }
 func (p *c19) DeadlockIsViolation() bool { return true }
 func (p *c19) Exhaustive(string) bool    { return false }
@@ -320,6 +320,15 @@ func c19World(pl *C19Plan, n int, seedSalt uint64) (results []c19Result, k *Kern
 		node = w.AddSimNode("aio", "mfg", "owner1")
 	}
 	node.MfgBits = 2048
+	if pl.Sql && node.Sql != nil {
+		// the backend's statement log is a seam: every SQL statement becomes a
+		// scheduling point, so that sessions interleave inside state methods
+		// (between the statements of one method), not only between them
+		node.Sql.DB.DebugLog = writerFunc(func(p []byte) (int, error) {
+			k.Yield("sql.stmt")
+			return len(p), nil
+		})
+	}
 	if RaceBuild {
 		w.Net.NoLog = true
 	}
@@ -437,7 +446,7 @@ func (p *c19) Exec(env *Env, plan any) {
 	o.Sched = fmt.Sprintf("%s:%016x", pl.Sched, k.TraceHash())
 	o.Nontrivial = k.MultiSteps > 0
 	o.SimTimeS = time.Since(env.Start).Seconds()
-	env.Logf("plan n=%d sql=%v sched=%s delays=%v steps=%d maxRunnable=%d", pl.N, pl.Sql, o.Sched, pl.Delays, k.Steps, k.MaxRunnable)
+	env.Logf("plan n=%d sql=%v sched=%s delays=%v steps=%d maxRunnable=%d sqlStmtYields=%d", pl.N, pl.Sql, o.Sched, pl.Delays, k.Steps, k.MaxRunnable, k.Sites()["sql.stmt"])
 	if pl.CancelAfter > 0 {
 		// cancellation makes selects in the library ready on several cases at
 		// once; the Go runtime then chooses by its own random source
@@ -448,6 +457,13 @@ func (p *c19) Exec(env *Env, plan any) {
 		o.Class = "DEADLOCK"
 		o.Violate("C19", "deadlock", fmt.Sprintf("sql=%v cancel=%q", pl.Sql, pl.CancelSite), "the simulated system deadlocked (N=%d, cancel after %d at %q): a task never returned", pl.N, pl.CancelAfter, pl.CancelSite)
 		return
+	}
+	if dbgLog {
+		for i, tr := range k.Trace {
+			if i < 90 {
+				env.Logf("trace %d %s", i, tr)
+			}
+		}
 	}
 	for i, r := range results {
 		env.Logf("dev%d ok=%v err=%s", i+1, r.ok, r.err)
